@@ -24,7 +24,7 @@ spec fn pieces_ok(d0: NodeData, first: NodeData, v: Seq<Rc<RefCell<Node>>>, c: S
 }
 // a node made by split: not yet on a page, registered under the next free id, alive
 spec fn fresh_node(n: Node, id: int, pagesize: u64) -> bool {
-    n.id == id && n.page_id == 0 && n.num_pages == 0 && n.children@.len() == 0 && !n.deleted && !n.spilled
+    n.id == id && n.page_id == 0 && n.children@.len() == 0 && !n.deleted && !n.spilled
         && n.parent is None && n.pagesize == pagesize
         && (n.original_key matches Some(k) && nd_len(n.data) > 0 && bytes_view(k) == nd_first_key(n.data))
 }
